@@ -600,6 +600,9 @@ class SimPool:
     def join(self):
         if self.state == 'RUN':
             raise ValueError("Pool is still running")
+        if self.state == 'CLOSE' and self.workers:
+            # waits for every outstanding job: the clock moves to the moment the last worker becomes free
+            self.w.now = max(self.w.now, max(p.free_at for p in self.workers))
 
     def __enter__(self):
         self._check_running()
